@@ -45,6 +45,7 @@ class Spec:
     offered: tuple = ()            # other suites offered in ClientHello besides the selected one
     use_rsa_label: bool = False    # <= 1.2: log the pre-master secret ("RSA <enc-pms-prefix> <pms>") - not generated (needs the encrypted PMS)
     keylog_extra: bool = True      # EXPORTER_SECRET etc. lines present
+    warn_alert: bool = False       # <= 1.2: the server sends a plaintext warning alert (unrecognized_name) right after its ServerHello record(s)
     cert_trap: bool = False        # Certificate body that reads as extensions 0x0016 / 0x002b=0304 to a parser that walks past the ServerHello
 
 
@@ -232,8 +233,10 @@ def build_conn(spec: Spec, rng) -> Conn:
         if spec.cert_trap:
             cert = bytes([0, 4]) + rb(4) + b"\x00\x16\x00\x00" + b"\x00\x2b\x00\x02\x03\x04" + rb(max(0, spec.cert_len - 16))
         msgs = [hs(2, sh), hs(11, cert), hs(12, rb(70)), hs(14, b"")]
-        for r in pack_records(msgs, spec.group_server_flight, wire):
+        for ri, r in enumerate(pack_records(msgs, spec.group_server_flight, wire)):
             ev.append(Ev("s", r, "hs"))
+            if ri == 0 and spec.warn_alert:
+                ev.append(Ev("s", refrec.plain_record(21, wire, b"\x01\x70"), "alert", b"\x01\x70"))
         ev.append(Ev("c", refrec.plain_record(22, wire, hs(16, rb(66))), "hs"))
         ev.append(Ev("c", refrec.plain_record(20, wire, b"\x01"), "ccs"))
         penc(cw, "c", 22, hs(20, rb(fin_len)), "ehs")
@@ -320,5 +323,6 @@ def random_spec(rng, version, code, nmax=40, big=True, avoid=()):
     s.offered = tuple(rng.sample(suites.SUPPORTED, rng.randrange(0, 4)))
     s.keylog_extra = rng.random() < 0.7
     s.cert_trap = rng.random() < 0.3
+    s.warn_alert = rng.random() < 0.15
     classes = dict(pattern=pattern, nrec=len(app))
     return s, classes
